@@ -8,7 +8,7 @@ from pyvc.exec import LoopSpec
 from . import tables  # noqa  (registers the table models)
 from .tables import bit
 from .binary import setup_fn, LIB
-from .specs import forall_range, isbits
+from .specs import forall_range, isbits, forall_view
 
 T = ('C10', 'C12', 'C15', 'C01', 'C02', 'C03')
 
@@ -60,11 +60,12 @@ register(FnContract(LIB + ':bits2bytes', setup=setup_fn({'data': 'bytes'}), tags
 # ------------------------------------------------------------------------------------------------ swapbytesinbits
 def _sbib_ensures(pre, post):
     d, r = pre['data'], post.result
-    q = t.var('q!', t.INT)
     m = t.pyfloordiv(d.len, I(8))
-    src = t.add(t.mul(I(8), t.sub(t.sub(m, t.ONE), t.pyfloordiv(q, I(8)))), t.pymod(q, I(8)))
+
+    def src(q):
+        return t.add(t.mul(I(8), t.sub(t.sub(m, t.ONE), t.pyfloordiv(q, I(8)))), t.pymod(q, I(8)))
     return [('same-length', t.eq(r.len, d.len)),
-            ('groups-of-8-in-reverse-order', forall_range(q, t.ZERO, d.len, t.eq(r.at(q), d.at(src)), [[r.at(q)]]))]
+            ('groups-of-8-in-reverse-order', forall_view(r, d.len, lambda q, e: t.eq(e, d.at(src(q)))))]
 
 
 register(FnContract(LIB + ':swapbytesinbits', setup=setup_fn({'data': 'bytes'}), tags=T,
